@@ -111,3 +111,11 @@ Proof.
   { rewrite V. pose proof (count_ones_le_self i ltac:(lia)). pose proof (count_ones_nonneg i). pow_lits. lia. }
   rewrite (node_index_to_leaf_index_desc _ _ _ _ R D). reflexivity.
 Qed.
+
+Theorem main_auth_path n start tg : 0 <= n < 2 ^ 63 ->
+  1 <= start <= spec_node_count n -> 1 <= tg <= spec_node_count n ->
+  mm_get_authentication_path_node_indices start tg (spec_node_count n) = spec_auth_path n start tg.
+Proof.
+  intros Hn Hs Ht. destruct (dom63 n Hn) as [H1 H2]. rewrite spec_node_count_ncount in * by exact H1.
+  apply auth_path_correct; assumption.
+Qed.
